@@ -45,18 +45,19 @@ AllShapes ==
    "name_nul", "name_long", "keys_empty", "keys_blank", "keys_huge", "keys_dup", "key_empty", "key_huge", "list_empty",
    "nil_sub", "enum_oob", "neg_ints", "max_ints", "min_ints", "neg_from", "huge_from", "island_zero", "island_huge"}
 
-VARIABLES pc, cur, locked, vigils, store, out, alive
+VARIABLES pc, cur, locked, vigils, store, out, alive, wedged
 
 M == INSTANCE Malformed WITH Rpcs <- TableRpcs, Shapes <- AllShapes, Pres <- {"exists", "missing"},
-                             PanicOK <- TablePanicOK, Dead <- TableDead, Creates <- TableCreates
+                             PanicOK <- TablePanicOK, Dead <- TableDead, Creates <- TableCreates, Wedge <- PairsOf("wedge")
 
 MCSpec == M!Spec
 GenInit == M!Init
-GenNext == UNCHANGED <<pc, cur, locked, vigils, store, out, alive>>
+GenNext == UNCHANGED <<pc, cur, locked, vigils, store, out, alive, wedged>>
 CleanOutcome == M!CleanOutcome
 Alive == M!Alive
 CountersReturn == M!CountersReturn
 CanStop == M!CanStop
+Usable == M!Usable
 NoSideEffect == M!NoSideEffect
 
 \* case generation: evaluated once as an ASSUME
